@@ -184,6 +184,7 @@ void direct(Rng& rng)
         }
         J info;
         info.s("T", tname<T>::get()).u("bins", bins).u("dims", dims).f("alpha", alpha).s("grid", gkind).s("data", kinds).u("step", step);
+        breadcrumb() = J(info).fv("data_values", data, 600).fv("old_grid", grid_vec(pdf), 600).str();
         hep::vegas_pdf<T> np = hep::vegas_refine_pdf(pdf, alpha, data);
         bool judged;
         judge_refinement(pdf, alpha, data, np, J(info).fv("data_values", data, 24), judged);
